@@ -8,6 +8,8 @@ import (
 	"os"
 	"path/filepath"
 	"strings"
+	"sync/atomic"
+	"time"
 
 	"github.com/rkosegi/yaml-toolkit/dom"
 	"github.com/rkosegi/yaml-toolkit/fluent"
@@ -50,11 +52,12 @@ type c04Config struct {
 
 func init() {
 	register(&Prop{ID: "C04", Run: c04Run,
-		Rule: "pairs of root containers A, B over a shared 6-key pool (B independent, or A after 1-4 local edits: key added/removed, leaf changed, kind swapped, list grown/shrunk/permuted), nulls with probability 0.2, lists of containers and lists of lists, both list strategies, B optionally sealed; overlay cases add 2-4 such documents as layers and read Merged(opts); heap-merge cases build A and B (or 1-3 overlay layers) in one of seven ways (FromMap, AddValue/ListNode with own or shared nil leaves, AddContainer/AddList/Set/Append, subtrees shared inside and between the documents, containers with an add-and-remove history), encode the real object graph as an explicit heap by pointer identity, Merge / Merged, and compare the result's sharing map (which result node is which input object / a new object) with the heap model, snapshot the inputs pointer for pointer, then write in place to the merged containers of the result; config cases send defaults plus 1-3 override sources (YAML file, JSON file, map, dom container) through fluent.ConfigHelper (six of them with an override file just over 512 B / 4 KiB / 64 KiB); seq cases merge the SAME A with 2-3 documents one after the other (half of them sparse documents that extend one of A's lists by 1-3 items; lists of up to 7 items, so that item slices have spare capacity), with itself under both strategies, and each B with A, re-observe every earlier result after all later merges, then edit A in place (domhist.go: AddValue / Remove / Set / MustSet / Append / Clear through nested builders, Lookup, the root's path API) and merge again; one in five builds all documents of the case so that structurally equal subtrees are one node object. A case is non-trivial when the two sides (some two layers / sources) share at least one key; distinct = distinct canonical case JSON (hash).",
+		Rule: "pairs of root containers A, B over a shared 6-key pool (B independent, or A after 1-4 local edits: key added/removed, leaf changed, kind swapped, list grown/shrunk/permuted), nulls with probability 0.2, lists of containers and lists of lists, both list strategies, B optionally sealed; every pair is merged again with the documents built so that structurally equal subtrees are ONE node object (inside A, inside B and between them; three times, once with a tree-shaped A, when B holds a composite subtree at several positions) — what b.AddValue(k1, n); b.AddValue(k2, n) produces — and a shared stream copies one or two composite subtrees of B to a second position and gives A members of its own at both places, so that the right-hand side references a non-empty container from two places that exist on the left; the result must be the reference merge of the two contents, whichever objects hold them; overlay cases add 2-4 such documents as layers and read Merged(opts); heap-merge cases build A and B (or 1-3 overlay layers) in one of seven ways (FromMap, AddValue/ListNode with own or shared nil leaves, AddContainer/AddList/Set/Append, subtrees shared inside and between the documents, containers with an add-and-remove history), encode the real object graph as an explicit heap by pointer identity, Merge / Merged, and compare the result's sharing map (which result node is which input object / a new object) with the heap model, snapshot the inputs pointer for pointer, then write in place to the merged containers of the result; config cases send defaults plus 1-3 override sources (YAML file, JSON file, map, dom container) through fluent.ConfigHelper (six of them with an override file just over 512 B / 4 KiB / 64 KiB); seq cases merge the SAME A with 2-3 documents one after the other (half of them sparse documents that extend one of A's lists by 1-3 items; lists of up to 7 items, so that item slices have spare capacity), with itself under both strategies, and each B with A, re-observe every earlier result after all later merges, then edit A in place (domhist.go: AddValue / Remove / Set / MustSet / Append / Clear through nested builders, Lookup, the root's path API) and merge again; one in five builds all documents of the case so that structurally equal subtrees are one node object. A case is non-trivial when the two sides (some two layers / sources) share at least one key; distinct = distinct canonical case JSON (hash).",
 		Assumptions: []string{
 			"scalars are NaN-free and -0-free; a leaf is null iff its Go value is nil (wire scalar {nil,<nil>})",
 			"keys are arbitrary strings (a path-safe pool, and a second pool with dots, slashes, spaces, '~', brackets, non-ASCII text and the empty key); no key ends in an index group `[digits]`: the API invariant discussed under D26",
 			"ConfigHelper.Result() passes through a yaml.v3 encode/decode round trip; expected values are normalised through the same round trip (external library, contract validated by correspondence only)",
+			"Merge / Merged calls on documents with shared node objects run under a 20 s watchdog (c04Bounded): an implementation that edits such inputs in place can make them cyclic or exponentially large and never return; a call that does not come back is a falsified clause (Merged-returns / Merge-returns), after which such calls are not made any more in that run",
 			"heap tie: a node object is identified by the address its pointer holds (a sealed view and its builder are one object), a children map by the address of its header (Children() returns the map itself); item slices are not observable by identity and are covered by the in-place write probes; the overlay's internal layer roots are not reachable through the API, the given layer documents stand for them (same members)",
 		}})
 	evals["C04"] = c04Eval
@@ -94,6 +97,13 @@ func c04Run(c *Ctx) {
 		c.Tick()
 		a := g.Doc(r)
 		c.Do("pair", c04Pair{A: a, B: second(a), Opt: opt(), Seal: r.Intn(4) == 0})
+	}
+	// the right-hand document references ONE node from two or three places that also exist on the left
+	for i := 0; i < c.N(700); i++ {
+		c.Tick()
+		a, b := c04SharedPair(r, g)
+		c.Dist("pair:right side holds a subtree at several positions")
+		c.Do("pair", c04Pair{A: a, B: b, Opt: opt(), Seal: r.Intn(4) == 0})
 	}
 	for i := 0; i < c.N(800); i++ {
 		c.Tick()
@@ -414,6 +424,52 @@ func c04Eval(c *Ctx, kind string, raw []byte) {
 		c.Direct("self-merge-meld-identity", canon(self) == canon(p.A) && eqSelf, self)
 		c.Corr("merge", rw, c.Model("merge", map[string]any{"a": p.A, "b": p.B, "opt": p.Opt}))
 		c.Corr("merge(AsMap)", rmap, c.Model("merge", map[string]any{"a": am0, "b": bm0, "opt": p.Opt}))
+		// identity: the same contents held by shared node objects (a merge is a function of the two contents): A and B built
+		// with shared objects; when B holds a composite at several places two more rounds (which of two places is visited first
+		// follows Go's map iteration order): the same again, then a tree-shaped A against a B with shared objects.
+		var dagRes, dagIn []W
+		if c04Runaway.Load() {
+			c.Dist("pair:shared-node rounds not evaluated after a call that did not return")
+			return
+		}
+		rounds := 1
+		if c04RepeatedComposite(p.B) {
+			rounds = 3 // one object at two places of B: which place is visited first follows the map order
+			c.Dist("pair:B holds one composite at several positions")
+		}
+		out, txt = guard(func() {
+			for round := 0; round < rounds; round++ {
+				memo := map[string]dom.Node{}
+				var a dom.ContainerBuilder
+				if round == 2 {
+					a = wireContainer(p.A)
+				} else {
+					a = heapBuildDag(p.A, memo).(dom.ContainerBuilder)
+				}
+				b := heapBuildDag(p.B, memo).(dom.ContainerBuilder)
+				var other dom.Container = b
+				if p.Seal {
+					other = b.Seal()
+				}
+				var res dom.ContainerBuilder
+				if o, t := c04Bounded(func() { res = a.Merge(other, c04Opts(p.Opt)...) }); o != "ok" {
+					c.Direct("Merge-returns(shared node objects)", o != "timeout", t)
+					panic("Merge: " + o + ": " + t)
+				}
+				if !dhAcyclic(res) || !dhAcyclic(a) || !dhAcyclic(b) {
+					panic("after Merge a container or list contains itself")
+				}
+				dagRes = append(dagRes, nodeWire(res))
+				dagIn = append(dagIn, nodeWire(a), nodeWire(b))
+			}
+		})
+		if c.Direct("no-panic(shared node objects)", out == "ok", txt) {
+			for i, rw := range dagRes {
+				c.Direct("merge-eq-reference(shared node objects)", canon(rw) == canon(ref), map[string]any{"round": i, "impl": rw, "expected": ref})
+				c.Direct("A-unchanged(shared node objects)", canon(dagIn[2*i]) == canon(p.A), map[string]any{"round": i, "after": dagIn[2*i]})
+				c.Direct("B-unchanged(shared node objects)", canon(dagIn[2*i+1]) == canon(p.B), map[string]any{"round": i, "after": dagIn[2*i+1]})
+			}
+		}
 	case "seq":
 		c04EvalSeq(c, raw) // c04_seq.go
 	case "pair-frommap":
@@ -441,6 +497,10 @@ func c04Eval(c *Ctx, kind string, raw []byte) {
 				c.Nontrivial()
 			}
 		}
+		if c04Runaway.Load() {
+			c.Dist("overlay:not-evaluated-after-a-call-that-did-not-return")
+			return
+		}
 		var mw, mmap, fold W
 		var before, after []W
 		out, txt := guard(func() {
@@ -464,7 +524,11 @@ func c04Eval(c *Ctx, kind string, raw []byte) {
 				return s
 			}
 			before = snap()
-			m := ov.Merged(c04Opts(p.Opt)...)
+			var m dom.Container
+			if o, t := c04Bounded(func() { m = ov.Merged(c04Opts(p.Opt)...) }); o != "ok" {
+				c.Direct("Merged-returns", o != "timeout", t)
+				panic("Merged: " + o + ": " + t)
+			}
 			finite := dhAcyclic(m)
 			for _, d := range given {
 				finite = finite && dhAcyclic(d)
@@ -637,6 +701,111 @@ func c04Eval(c *Ctx, kind string, raw []byte) {
 		m := c.Model("mergeAll", map[string]any{"layers": docs, "opt": "meld"})
 		c.Corr("config", got, norm(m))
 	}
+}
+
+// c04RepeatedComposite: two positions below w hold structurally equal composite subtrees (the dag build makes them one
+// node object).
+func c04RepeatedComposite(w W) bool {
+	seen := map[string]bool{}
+	var walk func(x W, root bool) bool
+	walk = func(x W, root bool) bool {
+		var kids []W
+		switch v := x.(type) {
+		case []any:
+			kids = v
+		case map[string]any:
+			c, ok := v["m"].(map[string]any)
+			if !ok {
+				return false
+			}
+			for _, k := range sortedKeys(c) {
+				kids = append(kids, c[k])
+			}
+		default:
+			return false
+		}
+		if !root {
+			key := canon(x)
+			if seen[key] {
+				return true
+			}
+			seen[key] = true
+		}
+		for _, e := range kids {
+			if walk(e, false) {
+				return true
+			}
+		}
+		return false
+	}
+	return walk(w, true)
+}
+
+// c04Runaway: a library call on documents with shared node objects did not return (see c04Bounded).
+var c04Runaway atomic.Bool
+
+// c04Bounded runs one library call (nothing else: no harness state is touched inside) and waits for it for at most
+// 20 s — five orders of magnitude above what a merge of these documents takes.  Documents whose node objects are shared
+// are finite and acyclic; a merge that edits its inputs in place can turn them into cyclic or exponentially growing
+// ones and then never returns.  A call that does not come back is abandoned (it keeps running in its goroutine until the
+// process ends) and reported as "timeout"; from then on such calls are not made any more ("skipped": the cases that
+// follow are not evaluated, so the abandoned goroutine's appetite cannot add up).  A panic is reported as "panic".
+func c04Bounded(f func()) (outcome, text string) {
+	if c04Runaway.Load() {
+		return "skipped", "an earlier call did not return; calls on shared node objects are not made any more in this run"
+	}
+	done := make(chan [2]string, 1)
+	go func() {
+		o, t := guard(f)
+		done <- [2]string{o, t}
+	}()
+	select {
+	case r := <-done:
+		return r[0], r[1]
+	case <-time.After(20 * time.Second):
+		c04Runaway.Store(true)
+		return "timeout", "the call did not return within 20 s (abandoned)"
+	}
+}
+
+// c04SharedPair: B holds one or two composite subtrees at a second position each (vrGraftCopy); A is B after 0-3
+// local edits, with one or two members of its own added wherever it still has a container at the places of the copied
+// subtree — the left side has keys there that the right side's subtree lacks.
+func c04SharedPair(r *rand.Rand, g *DocGen) (W, W) {
+	b := g.Doc(r)
+	var at [][]any
+	for k, n := 0, 1+r.Intn(2); k < n; k++ {
+		if b2, src, dst, ok := vrGraftCopy(r, b, g.Keys); ok {
+			b = b2
+			at = append(at, src, dst)
+		}
+	}
+	a := b
+	for i, n := 0, r.Intn(4); i < n; i++ {
+		a = g.Mutate(r, a)
+	}
+	for _, p := range at {
+		if r.Intn(4) == 0 {
+			continue
+		}
+		if a2, ok := dhUpdate(a, p, func(w W) (W, bool) {
+			cm, isCont := wireCont(w)
+			if !isCont {
+				return nil, false
+			}
+			m := map[string]any{}
+			for k, v := range cm {
+				m[k] = v
+			}
+			for i, n := 0, 1+r.Intn(2); i < n; i++ {
+				m[pick(r, g.Keys)] = g.Node(r, g.MaxDepth-1)
+			}
+			return map[string]any{"m": m}, true
+		}); ok {
+			a = a2
+		}
+	}
+	return a, b
 }
 
 var _ = rand.Int
